@@ -27,13 +27,23 @@ func newCenv(r *drv.Run, variants ...cbuild.Variant) *cenv {
 		drv.Fatal("generating std from the working tree: %v", err)
 	}
 	e := &cenv{r: r, std: std, bins: map[string]string{}}
+	stds := map[string]*cbuild.Std{"plain": std}
+	for _, v := range variants {
+		if v.GenVar == "checked" && stds["checked"] == nil {
+			cs, err := cbuild.GenStd(r, "checked", "verif", []string{"WUFFS_VERIF=ranges"})
+			if err != nil {
+				drv.Fatal("generating the checked std from the working tree: %v", err)
+			}
+			stds["checked"] = cs
+		}
+	}
 	var wg sync.WaitGroup
 	errs := make([]error, len(variants))
 	for i, v := range variants {
 		wg.Add(1)
 		go func(i int, v cbuild.Variant) {
 			defer wg.Done()
-			b, err := cbuild.BuildWdrive(r, std, v)
+			b, err := cbuild.BuildWdrive(r, stds[v.GenVar], v)
 			errs[i] = err
 			e.mu.Lock()
 			e.bins[v.Name] = b
